@@ -133,6 +133,7 @@ func (p *clientStreamProcessorFMP4) run(ctx context.Context) error {
 
 	for {
 		seg, ok := p.segmentQueue.pull(ctx)
+		verifYield("client.processor.afterPull")
 		if !ok {
 			return fmt.Errorf("terminated")
 		}
@@ -253,11 +254,13 @@ func (p *clientStreamProcessorFMP4) initializeTrackProcessors(
 		timeConv.initialize()
 
 		p.client.setLeadingTimeConv(timeConv)
+		verifYield("client.leadingTimeConv.set")
 	} else {
 		ok := p.client.waitLeadingTimeConv(ctx)
 		if !ok {
 			return fmt.Errorf("terminated")
 		}
+		verifYield("client.leadingTimeConv.got")
 
 		_, ok = p.client.getLeadingTimeConv().(*clientTimeConvFMP4)
 		if !ok {
